@@ -111,7 +111,6 @@ fn bcast_list_scalar_n(op: BinaryOp, n: usize) {
     let e1 = if list_first { scalar_result(op, b, s, &heap, &env) } else { scalar_result(op, s, b, &heap, &env) };
     check_result(&r, &heap, n, e0, e1);
     kani::cover!(n == 2 && r.is_ok(), "reach-two-elements-ok");
-    kani::cover!(n == 2 && r.is_err(), "reach-two-elements-err");
     kani::cover!(n == 0, "reach-empty");
     std::mem::forget(r); std::mem::forget(heap); std::mem::forget(env);
 }
